@@ -727,7 +727,7 @@ class Enum:
             if z3.is_false(n_eq) or not ctx.valid(n_eq, 600):
                 continue
             same = z3.Implies(in_range(kf, e.n), zbool(e1.g(kf)) == zbool(e.g(kf)))
-            if ctx.valid(same, 2500):
+            if ctx.valid(same, 6000):
                 j, i = z3.Ints("j!ax i!ax")
                 ctx.assumptions.append(e1.cnt == e.cnt)
                 ctx.assumptions.append(z3.ForAll([j], e1.idx(j) == e.idx(j), patterns=[e1.idx(j)]))
